@@ -29,6 +29,7 @@ type c16In struct {
 	Fail      int   `json:"fail"`
 	Finally   int   `json:"finally"`
 	ErrListenerMS int `json:"err_listener_ms,omitempty"` // >0: the body registers an error listener that takes this long
+	Second    bool  `json:"second,omitempty"` // a second try block (succeeding body, success + finally handlers) follows in the same scope
 }
 
 func c16Gen(r *Rand, tier string) interface{} {
@@ -49,6 +50,7 @@ func c16Gen(r *Rand, tier string) interface{} {
 	}
 	h := func() int { return []int{0, 1, 1, 1, 2, 3}[r.Intn(6)] }
 	in.Success, in.Fail, in.Finally = h(), h(), h()
+	in.Second = r.Chance(1, 4)
 	return in
 }
 
@@ -96,6 +98,9 @@ func c16Run(inI interface{}, env *Env) *Failure {
 		runErr   error
 		outerErr []error
 		done     bool
+		secondRan   bool
+		secondErr   error
+		secondOuter []error
 	)
 	res := env.Sim(SimOpts{MaxSteps: 400000, FairSteps: 100000}, func() {
 		sa = newSimApp("", 1)
@@ -125,6 +130,14 @@ func c16Run(inI interface{}, env *Env) *Failure {
 		runErr = deps.Terminal.RunCommand(ioctx, args)
 		_ = outer.Wait()
 		outerErr = append([]error(nil), outer.Errors()...)
+		if in.Second && len(outerErr) == 0 && runErr == nil {
+			// the surrounding scope is intact: a second try block in it behaves like the first
+			secondRan = true
+			secondErr = deps.Terminal.RunCommand(ioctx, []string{"pip:try", "--name=tr2", "--silent=true",
+				"--body=begin --id=c\nend --id=c\n", "--success=mark --id=g.success\n", "--fail=mark --id=g.fail\n", "--finally=mark --id=g.finally\n"})
+			_ = outer.Wait()
+			secondOuter = append([]error(nil), outer.Errors()...)
+		}
 		done = true
 		func() {
 			defer func() { recover() }()
@@ -215,6 +228,13 @@ func c16Run(inI interface{}, env *Env) *Failure {
 	for _, e := range sa.events {
 		if strings.HasPrefix(e.ID, "h.") && e.Kind == "fail" {
 			handlerFailed = true
+		}
+	}
+	if secondRan {
+		env.Count("probe.second-try-block-in-the-same-scope")
+		s, fl, fin := len(sa.eventsOf("g.success")), len(sa.eventsOf("g.fail")), len(sa.eventsOf("g.finally"))
+		if s != 1 || fl != 0 || fin != 1 || secondErr != nil || len(secondOuter) != 0 {
+			return failf("C16/wrong-handler", "second-try-block", "a second try block in the same (intact) scope with a succeeding body: success ran %d times, fail %d, finally %d (expected 1, 0, 1); RunCommand returned %v, the scope holds %v", s, fl, fin, secondErr, secondOuter)
 		}
 	}
 	if handlerFailed && len(outerErr) == 0 {
